@@ -63,9 +63,14 @@ const MACRO_PROGRAM: &str = "(import (scheme base) (scheme write))\n(define-synt
 /// one lost byte changes how many items a variable matched)
 const ELLIPSIS_PROGRAM: &str = "(import (scheme base) (scheme write))\n(define-syntax sum-pairs\n  (syntax-rules ()\n    ((sum-pairs (a ...) (b ...)) (list (+ a b) ...))))\n(display (sum-pairs (1 2 3 4) (5 6 7 8)))\n(define-syntax my-let\n  (syntax-rules ()\n    ((my-let ((n v) ...) body ...) ((lambda (n ...) body ...) v ...))))\n(display (my-let ((x 1) (y 2) (z 3)) (+ x y z)))\n(define-syntax flat\n  (syntax-rules ()\n    ((flat (a b ...) ...) (list (list a b ...) ...))))\n(display (flat (1 2 3) (4 5) (6 7)))\n(define-syntax for\n  (syntax-rules (in)\n    ((for x in (e ...) body) (list ((lambda (x) body) e) ...))))\n(display (for y in (1 2 3) (* y y)))\n(define-syntax zip3\n  (syntax-rules ()\n    ((zip3 (a ...) (b ...) (c ...)) (list (list a b c) ...))))\n(display (zip3 (1 2 3) (4 5 6) (7 8 9)))\n(newline)\n";
 
+/// a short program that is mostly escapes and literals at the edge of what they can denote: a
+/// single flipped bit moves one of them over the edge
+const ESCAPES_PROGRAM: &str = "(import (scheme base) (scheme write))\n(display \"\\x10FFFF;\\xD7FF;\\xE000;\\x7F;\\x0;\")\n(display #\\a)\n(display 2147483647)\n(display -2147483648)\n(display 1/2)\n(display 1e38)\n(display '(1 . 2))\n(newline)\n";
+
 fn pick_world(rng: &mut Rng) -> (Vec<(String, Vec<u8>)>, String) {
-    let c = rng.upto(13);
+    let c = rng.upto(14);
     match c {
+        13 => (vec![("main.scm".into(), ESCAPES_PROGRAM.as_bytes().to_vec())], "escapes-program".into()),
         12 => (vec![("main.scm".into(), ELLIPSIS_PROGRAM.as_bytes().to_vec())], "ellipsis-program".into()),
         11 => (vec![("main.scm".into(), MACRO_PROGRAM.as_bytes().to_vec())], "macro-program".into()),
         10 => (vec![("main.scm".into(), NON_ASCII_PROGRAM.as_bytes().to_vec())], "non-ascii-program".into()),
@@ -243,7 +248,7 @@ fn damage(rng: &mut Rng, bytes: &mut Vec<u8>, kind: &str, other: &[u8]) {
             let alphabet = b"()#\\'\".;|0123456789/e+- \n\xff\x00";
             let (b1, b2) = if rng.chance(1, 3) {
                 // biased towards pairs that open or close something in the reader
-                let pair = *rng.pick(&[b"#|", b"|#", b"#;", b",@", b"#\\", b"#(", b"'(", b"\"\\", b"#!", b"#d", b"#e", b"1/", b"-."]);
+                let pair = *rng.pick(&[b". ", b"(.", b"#|", b"|#", b"#;", b",@", b"#\\", b"#(", b"'(", b"\"\\", b"#!", b"#d", b"#e", b"1/", b"-."]);
                 (pair[0], pair[1])
             } else {
                 (*rng.pick(alphabet), *rng.pick(alphabet))
